@@ -259,6 +259,8 @@ def main(prop, tier, seed, replay_path=None):
     for (cls, ns, dt) in combos:
         n_eval += eval_cases(verdict, cases, cls, ns, dt)
     n_pre = preimage_real_transforms(verdict, tier, seed)
+    import e3_dispatch
+    disp = e3_dispatch.replay(verdict, tier, seed) if not replay_path else {}
     # binding self-test: a wrong expectation must be noticed
     v2 = Verdict(prop)
     bad = [dict(c, expect=(c["expect"] + 8 if c["expect"] not in (MINF, NAN) else c["expect"])) for c in cases[:200]]
@@ -274,6 +276,7 @@ def main(prop, tier, seed, replay_path=None):
            "exhaustive": tier != "quick", "tlc_cases": ncases, "sampler_namespace_combinations": [list(c) for c in combos],
            "preimage_points": n_pre, "laws_checked_by_tlc": ["ZeroPriorMinusInf", "NanToMinusInf", "FiniteIffAllFinite", "TargetDef"],
            "binding_selftest": "reference shifted by 1 rejected", "known_findings_hit": known}
+    cov.update(disp)
     write_evidence(prop, tier, seed, time.time() - t0, cov, [STD_ASSUMPTIONS[2],
         "table-valued proposal / likelihood / prior and a table-valued identity transform stand for the user's functions: all finite values are small dyadic rationals so the expected result is exact in binary floating point",
         "BlackJAXSMC is exercised through its log_prob only (the blackjax package cannot be installed)",
